@@ -40,8 +40,10 @@ claimed = {
  "C13": ("proof", "DESIGN.md section 4 C13",
    "Unbounded deductive proof relative to a model of package time in which the zone offset is an uninterpreted function (all zones at once): every date producer (ToDate, ParseDate, the wire decoders of Date, DateTime, SystemDate, SystemTime) has a `civil` postcondition - if the civil day / date-time exists in the process-local zone the result has exactly the requested fields - and the encoders write exactly the civil fields. On the current tree the date clauses are provable only under the additional hypothesis that local midnight exists on that day: the missing-midnight case is a genuine defect recorded as four known findings (known_findings.txt), each replayed on the real code.",
    BASE_NOTE + "; the time model (spec/time.spec: time.Date algorithm abs = C - off(C - off(C)), documented guarantee when the civil time exists, calendar bijection) is assumed; the status recombination closures are covered through the decoder contracts only"),
+ "C18": ("other", "DESIGN.md section 4 C18",
+   "Deductive proof per layout over a FINITE FAMILY of layouts (bounded in the layout quantifier, unbounded in the field values): for 9 message layouts that are not shipped messages and together cover every supported field kind, fields ending on byte 63, pointer variants, one level of embedding and decimal/hex/upper-case value tags, Unmarshal(Marshal(v)) is verified with the reflective codec executed on its real body - exact bytes at each offset and zero elsewhere, decode(encode(v)) == v, tags emitted and enforced, no shared memory with the buffer, no panic. The generic statement for all layouts of the tag grammar is not discharged (reflection on a statically unknown type is outside the engine's model); that is why the level is 'other', not 'proof'.",
+   BASE_NOTE + "; bounded: the family of layouts in encoding/UTO311-L0x/lemmas_verif.go"),
 }
-
 not_applicable = {
  "C08": "quantifies over schedules (data races, crossed replies between concurrent calls); sequential function contracts have no notion of interleaving or happens-before, see DESIGN.md section 4 C08",
 }
